@@ -18,10 +18,12 @@ import (
 	"net"
 	"net/netip"
 	"runtime/debug"
+	"strconv"
 	"strings"
 	"testing"
 	"time"
 
+	"github.com/osrg/gobgp/v4/api"
 	"github.com/osrg/gobgp/v4/internal/pkg/table"
 	"github.com/osrg/gobgp/v4/internal/verif/vr"
 	"github.com/osrg/gobgp/v4/pkg/packet/bgp"
@@ -99,28 +101,43 @@ type c16rDiscTok struct {
 	eodSince bool // an End-of-Data was committed after this disconnect
 }
 
+const (
+	c16rNo = iota
+	c16rYes
+	c16rMaybe // an unframed response arrived while a full reload was owed: it may or may not have been the reload
+)
+
 type c16rCache struct {
-	configured bool
-	data       [c16rNRec]bool // records announced and not withdrawn, as of the last completed response
-	fuzzy      [c16rNRec]bool // presence unspecified (aborted response, protocol violation by the cache)
-	inTxn      bool           // between Cache Response and End of Data
-	txnFull    bool           // the open response answers a Reset Query: it is the cache's complete database
-	txnPurged  bool           // the cache's data was purged while the response was open
-	ops        []c16rOp
-	needFull   bool // the router has to (re)load with a Reset Query: the next response is a full one
-	tainted    bool // the cache violated the framing; no claim until the session is re-established
-	toks       []c16rDiscTok
+	configured  bool
+	data        [c16rNRec]bool // records announced and not withdrawn, as of the last completed response
+	fuzzy       [c16rNRec]bool // presence unspecified (aborted response, protocol violation by the cache)
+	inTxn       bool           // between Cache Response and End of Data
+	txnFull     int            // the open response answers a Reset Query (it is the cache's complete database): no / yes / maybe
+	txnPurged   bool           // the cache's data was purged while the response was open
+	txnUnframed bool           // opened by a prefix PDU / End of Data without a Cache Response
+	ops         []c16rOp
+	needFull    int  // the router has to (re)load with a Reset Query, the next response is a full one: no / yes / maybe
+	tainted     bool // the cache violated the framing; no claim until the session is re-established
+	toks        []c16rDiscTok
 }
 
 func (c *c16rCache) work(newSession bool) [c16rNRec]bool {
 	var w [c16rNRec]bool
-	if !(c.txnFull || c.txnPurged || newSession) {
+	if !(c.txnFull == c16rYes || c.txnPurged || newSession) {
 		w = c.data
 	}
 	for _, o := range c.ops {
 		w[o.rec] = o.add
 	}
 	return w
+}
+
+func (c *c16rCache) openUnframed() {
+	c.inTxn, c.txnPurged, c.txnUnframed, c.ops = true, false, true, nil
+	c.txnFull = c16rNo
+	if c.needFull != c16rNo {
+		c.txnFull = c16rMaybe
+	}
 }
 
 func (c *c16rCache) taint() {
@@ -142,11 +159,8 @@ func (c *c16rCache) step(kind int, expiryDelivered bool) string {
 			// second Cache Response inside an open response: what was announced stays announced
 			return "nested-cache-response(no-op)"
 		}
-		c.inTxn, c.txnFull, c.txnPurged, c.ops = true, c.needFull, false, nil
-		if c.txnFull {
-			return "cache-response(full)"
-		}
-		return "cache-response(incremental)"
+		c.inTxn, c.txnFull, c.txnPurged, c.txnUnframed, c.ops = true, c.needFull, false, false, nil
+		return "cache-response(" + [...]string{"incremental", "full", "maybe-full"}[c.txnFull] + ")"
 	case c16rAddA, c16rAddB, c16rAddC, c16rRemA, c16rRemB, c16rRemC:
 		add := kind <= c16rAddC
 		rec := kind - c16rAddA
@@ -156,8 +170,8 @@ func (c *c16rCache) step(kind int, expiryDelivered bool) string {
 		pre := ""
 		if !c.inTxn {
 			// prefix PDU without a Cache Response: the property counts it as an announcement/withdrawal all the same;
-			// it is treated as opening the response the router is waiting for
-			c.inTxn, c.txnFull, c.txnPurged, c.ops = true, c.needFull, false, nil
+			// it opens a response; whether that response is the answer to an owed Reset Query is left open
+			c.openUnframed()
 			pre = "unframed:"
 		}
 		w := c.work(false)
@@ -177,7 +191,9 @@ func (c *c16rCache) step(kind int, expiryDelivered bool) string {
 		}
 		pre := ""
 		if !c.inTxn {
-			c.inTxn, c.txnFull, c.txnPurged, c.ops = true, c.needFull, false, nil
+			c.openUnframed()
+		}
+		if c.txnUnframed {
 			pre = "unframed:"
 		}
 		newS := kind == c16rEODNew
@@ -186,26 +202,45 @@ func (c *c16rCache) step(kind int, expiryDelivered bool) string {
 		if c.tainted {
 			label = "end-of-data(tainted)"
 		} else {
-			if c.txnFull || c.txnPurged || newS {
+			if c.txnFull == c16rYes || c.txnPurged || newS {
 				c.fuzzy = [c16rNRec]bool{}
 				label = "end-of-data(full)"
 				if newS {
 					label = "end-of-data(new-session)"
 				}
 			} else {
+				touched := [c16rNRec]bool{}
 				for _, o := range c.ops {
 					c.fuzzy[o.rec] = false
+					touched[o.rec] = true
+				}
+				if c.txnFull == c16rMaybe {
+					label = "end-of-data(maybe-full)"
+					for i := range touched {
+						if !touched[i] && c.data[i] {
+							c.fuzzy[i] = true // replaced by the reload, or kept by an incremental update
+						}
+					}
 				}
 			}
 			c.data = w
+			if newS && c.txnUnframed {
+				// were these records announced "in" the old or the new session? the texts do not say
+				for _, o := range c.ops {
+					c.fuzzy[o.rec] = true
+				}
+			}
 		}
-		if c.txnFull {
-			c.needFull = false
+		switch {
+		case !c.txnUnframed:
+			c.needFull = c16rNo // a framed response was completed: nothing is owed any more
+		case c.needFull != c16rNo:
+			c.needFull = c16rMaybe
 		}
 		c.inTxn, c.ops = false, nil
 		return pre + label
 	case c16rCacheReset, c16rSNOlder:
-		c.needFull = true
+		c.needFull = c16rYes
 		if c.inTxn {
 			c.taint()
 			return "ill-formed:reset-inside-response"
@@ -232,7 +267,7 @@ func (c *c16rCache) step(kind int, expiryDelivered bool) string {
 		}
 		c.inTxn, c.ops = false, nil
 		c.tainted = false
-		c.needFull = true
+		c.needFull = c16rYes
 		c.toks = append(c.toks, c16rDiscTok{})
 		return label
 	case c16rExpiry:
@@ -269,11 +304,11 @@ func (c *c16rCache) view() (lo, hi [c16rNRec]bool) {
 	if c.inTxn {
 		// a record may show its old state or any state the open response has put it in so far
 		var cur [c16rNRec]bool
-		if !(c.txnFull || c.txnPurged) {
+		if !(c.txnFull == c16rYes || c.txnPurged) {
 			cur = c.data
 		}
 		for i := range cur {
-			lo[i] = c.data[i] && cur[i]
+			lo[i] = c.data[i] && cur[i] && c.txnFull != c16rMaybe
 			hi[i] = c.data[i] || cur[i]
 		}
 		for _, o := range c.ops {
@@ -335,6 +370,8 @@ func c16rNewImpl() *c16rImpl {
 			panic(err)
 		}
 		im.clients[i] = c
+		// the first connection: established() begins with softReset() (Reset Query); conn == nil, nothing is written
+		_ = c.softReset()
 	}
 	return im
 }
@@ -495,7 +532,7 @@ func c16rRun(c *vr.Report, cs c16rCase) {
 	defer im.close()
 	var model [2]c16rCache
 	for i := range model {
-		model[i] = c16rCache{configured: true, needFull: true}
+		model[i] = c16rCache{configured: true, needFull: c16rYes}
 	}
 	full := cs.Seq
 	pre := 0
@@ -594,7 +631,7 @@ func c16rClassify(prev c16rCache, now *c16rCache, sameCache bool, kind int, labe
 	}
 	extra := n == 1
 	switch {
-	case (kind == c16rEODSame) && extra && prev.inTxn && prev.txnFull && !prev.txnPurged && (prev.data[rec] || prev.fuzzy[rec]):
+	case (kind == c16rEODSame) && extra && prev.inTxn && prev.txnFull == c16rYes && !prev.txnPurged && (prev.data[rec] || prev.fuzzy[rec]):
 		// record was in the old database, is not in the complete new one, session id unchanged
 		last := -1
 		for i, o := range prev.ops {
@@ -630,6 +667,63 @@ func c16rClassify(prev c16rCache, now *c16rCache, sameCache bool, kind int, labe
 	return fmt.Sprintf("C16/rtr/table-differs after=%s record-%s", strings.SplitN(label, "(", 2)[0], dir)
 }
 
+
+// ---------------------------------------------------------------------------------------------
+// cache-server removal through the management API (the only caller of roaManager.DeleteServer): a cache that was
+// configured as AddRpki configures it (key = JoinHostPort(address, port)), has loaded record a, and is then removed
+// with DeleteRpki{Address, Port} must be gone from ListRpki and its records from ListRpkiTable.
+
+type c16rAPICase struct {
+	API  bool   `json:"api"`
+	Addr string `json:"addr"`
+	Port uint32 `json:"port"`
+}
+
+var c16rAPICases = []c16rAPICase{{true, "192.0.2.1", 323}, {true, "192.0.2.1", 8282}, {true, "2001:db8::1", 323}}
+
+func c16rRunAPI(c *vr.Report, cs c16rAPICase) {
+	c.Eval()
+	s := NewBgpServer()
+	go s.Serve()
+	defer s.Stop()
+	ctx := context.Background()
+	host := net.JoinHostPort(cs.Addr, strconv.Itoa(int(cs.Port))) // BgpServer.AddRpki's key
+	err := s.mgmtOperation(func() error {
+		cl, err := c16rAddServer(s.roaManager, host)
+		if err != nil {
+			return err
+		}
+		_ = cl.softReset()
+		for _, b := range [][]byte{c16rMust(rtr.NewRTRCacheResponse(1).Serialize()), c16rPrefixPDU[1][0], c16rMust(rtr.NewRTREndOfData(1, 1).Serialize())} {
+			s.roaManager.HandleROAEvent(&roaEvent{EventType: roaRTR, Src: host, Data: b, timestamp: time.Unix(1000, 0)})
+		}
+		return nil
+	}, false)
+	if err != nil {
+		c.Violationf("C16/rtr/api-setup-failed", cs, "cannot configure cache %s: %v", host, err)
+		return
+	}
+	count := func() (servers, roas int) {
+		_ = s.ListRpki(ctx, &api.ListRpkiRequest{}, func(*api.Rpki) { servers++ })
+		_ = s.ListRpkiTable(ctx, &api.ListRpkiTableRequest{}, func(*api.Roa) { roas++ })
+		return
+	}
+	s0, r0 := count()
+	derr := s.DeleteRpki(ctx, &api.DeleteRpkiRequest{Address: cs.Addr, Port: cs.Port})
+	s1, r1 := count()
+	c.NT("api/" + host)
+	c.Outcome(fmt.Sprintf("api-delete: servers %d->%d roas %d->%d err=%v", s0, s1, r0, r1, derr != nil))
+	if s0 != 1 || r0 != 1 {
+		c.Violationf("C16/rtr/api-setup-failed", cs, "after loading one record from %s: ListRpki=%d ListRpkiTable=%d", host, s0, r0)
+		return
+	}
+	if derr != nil || s1 != 0 || r1 != 0 {
+		c.Violationf("C16/rtr/api-delete-server-does-not-remove-cache", cs,
+			"cache configured as %s with one record loaded; DeleteRpki{Address:%q Port:%d} returned %v; afterwards ListRpki shows %d caches and ListRpkiTable %d ROAs (want 0 and 0)",
+			host, cs.Addr, cs.Port, derr, s1, r1)
+	}
+}
+
 // ---------------------------------------------------------------------------------------------
 
 func c16rAlphabet(trim bool) []int {
@@ -662,12 +756,17 @@ func TestVerif_C16_RTR(t *testing.T) {
 		"clients have conn==nil: Serial/Reset Queries are never written; which query the router owes is taken from RFC 8210 and rpki.go (Reset Query on connect, on Cache Reset, on an older Serial Notify)",
 		"a response to a Reset Query is the cache's complete database: records of that cache absent from it are no longer announced",
 		"between Cache Response and End of Data each record may show its old state or any state the response has put it in so far",
-		"a prefix PDU or End of Data that arrives without a Cache Response counts as part of the response the router is waiting for; a second Cache Response inside a response changes nothing",
+		"a prefix PDU or End of Data that arrives without a Cache Response counts as an announcement/withdrawal/commit of an incremental response (never as the answer to a Reset Query); if such a response ends with a new session id the records it touched are unspecified; a second Cache Response inside a response changes nothing",
 		"after a Cache Reset or an older Serial Notify inside an open response (the live daemon would drop its buffered announcements, the socket-less harness cannot) no claim is made for that cache until it reconnects",
 		"disconnect is followed by the reconnect's softReset() call (what established() does first); roaConnected itself is not delivered (it needs a *net.TCPConn)",
 		"lifetime: data of a cache is purged at expiry iff no End-of-Data was committed since the disconnect that armed the timer")
 
 	if r.ReplayPath() != "" {
+		var ac c16rAPICase
+		if err := r.LoadReplay(&ac); err == nil && ac.API {
+			c16rRunAPI(r, ac)
+			return
+		}
 		var cs c16rCase
 		if err := r.LoadReplay(&cs); err != nil {
 			t.Fatalf("ENGINE-ERROR replay: %v", err)
@@ -698,6 +797,11 @@ func TestVerif_C16_RTR(t *testing.T) {
 	r.Bounds["events_cache_B"] = len(al) - c16rNEv
 	r.Bounds["start_states"] = 2
 	r.Bounds["records"] = "a=10.0.0.0/24-24 AS1 (both caches), b=10.0.0.0/24-25 AS2, c6=2001:db8::/32-48 AS1"
+
+	r.Bounds["api_delete_cases"] = len(c16rAPICases)
+	for _, ac := range c16rAPICases {
+		c16rRunAPI(r, ac)
+	}
 
 	W := vr.Workers()
 	// Phase "all": lengths in increasing order, so that the first case recorded per violation key is a shortest one;
